@@ -24,24 +24,22 @@ theorem created_unknown (expr : GoString) (opts : List Opt) (ev : Evaluator)
     · contradiction
 
 /-- Evaluate on an evaluator returned by CreateEvaluator never panics, and an error comes with
-    false — for every byte string accepted, every option list, every well-formed datum on which
-    the library's `Get` does not panic (`C09.GetNoPanic`; see `Props/C09Keys.lean`). -/
+    false — for every byte string accepted, every option list, every well-formed datum. -/
 theorem created_evaluator_total (re : RegexOracle) (expr : GoString) (opts : List Opt) (ev : Evaluator)
     (d : Any) (h : createEvaluator goEnv goGrammar expr opts = .ok ev) (ho : OptsWfIn opts)
-    (hd : Any.wf d = true) (hp : C09.GetNoPanic d) :
+    (hd : Any.wf d = true) :
     ev.evaluate re d ≠ .panic ∧ ∀ b, ev.evaluate re d = .err b → b = false := by
   have hs : ev.ast.parserShaped = true := by
     rcases C10.create_cases expr opts with he | ⟨ev', hev', hsh⟩
     · rw [he] at h; contradiction
     · rw [hev'] at h; injection h with h; rw [← h]; exact hsh
-  refine ⟨C09.Evaluator_evaluate_no_panic re ev d hs hd hp ?_, fun b => C09.Evaluator_evaluate_err_false re ev d b⟩
+  refine ⟨C09.Evaluator_evaluate_no_panic re ev d hs hd ?_, fun b => C09.Evaluator_evaluate_err_false re ev d b⟩
   intro u hu
   rw [created_unknown expr opts ev h] at hu
   exact ho u hu
 
 /-- Execute on a filter returned by CreateFilter never panics (the nil filter returns its input). -/
-theorem created_filter_total (re : RegexOracle) (expr : GoString) (data : Any) (hd : Any.wf data = true)
-    (hp : ∀ x, x ∈ C09.execElems data → C09.GetNoPanic x.toAny) :
+theorem created_filter_total (re : RegexOracle) (expr : GoString) (data : Any) (hd : Any.wf data = true) :
     (createFilter goEnv goGrammar expr = .nilFilter → execute re none data = .ok data) ∧
     (∀ ev, createFilter goEnv goGrammar expr = .ok ev → execute re (some ev) data ≠ .panic) := by
   refine ⟨fun _ => rfl, fun ev h => ?_⟩
@@ -58,7 +56,7 @@ theorem created_filter_total (re : RegexOracle) (expr : GoString) (data : Any) (
         rcases C10.create_cases expr [] with he | ⟨ev'', hev'', hsh⟩
         · rw [he] at hc; contradiction
         · rw [hev''] at hc; injection hc with hc; rw [← hc]; exact hsh
-      refine C09.execute_no_panic re ev' data hs hd hp ?_
+      refine C09.execute_no_panic re ev' data hs hd ?_
       intro u hu
       rw [created_unknown expr [] ev' hc] at hu
       simp [getOpts, defaultOptions] at hu
